@@ -3,6 +3,7 @@ package wat2x64
 import (
 	"fmt"
 	"io"
+	"math"
 	"strings"
 )
 
@@ -50,11 +51,11 @@ func (p *wat2X64Worker) gasDefI64(w io.Writer, name string, v int64) {
 }
 
 func (p *wat2X64Worker) gasDefF32(w io.Writer, name string, v float32) {
-	fmt.Fprintf(w, "%s: .float %f\n", name, v)
+	fmt.Fprintf(w, "%s: .long 0x%08X # float %v\n", name, math.Float32bits(v), v)
 }
 
 func (p *wat2X64Worker) gasDefF64(w io.Writer, name string, v float64) {
-	fmt.Fprintf(w, "%s: .double %f\n", name, v)
+	fmt.Fprintf(w, "%s: .quad 0x%016X # double %v\n", name, math.Float64bits(v), v)
 }
 
 func (p *wat2X64Worker) gasDefString(w io.Writer, name string, v string) {
